@@ -170,6 +170,13 @@ class EngineBase:
             return TupleV([self.fresh_of_type(t, f"{base}.{i}") for i, t in enumerate(parts)])
         if ty == 'none':
             return None
+        if ty.startswith('frame:'):
+            # a one-row DataFrame built column by column: frame:col=type;col=type
+            items = {}
+            for part in ty[6:].split(';'):
+                k, t = part.split('=')
+                items[k] = self.fresh_of_type(t, f"{base}.{k}")
+            return Record(items, label='DataFrame')
         if ty == 'proc':
             return ProcV(None, z3.Bool(fresh_name(base + '.triggered')))
         raise OutOfSubset(f"unknown type {ty}")
